@@ -14,6 +14,8 @@ pub struct Entry {
     pub current: bool,
     pub first_step: usize,
     pub ended_step: usize,
+    /// Seen on its issuer's published CRL at some quiescence.
+    pub confirmed: bool,
 }
 
 #[derive(Default)]
@@ -24,8 +26,64 @@ pub struct State {
     pub crl_checks: u64,
 }
 
-pub fn instant(_r: &mut Runner) { }
-pub fn after_task(_r: &mut Runner) { }
+pub fn instant(r: &mut Runner) {
+    stored_crls(r, "after the operation");
+}
+
+pub fn after_task(r: &mut Runner) {
+    stored_crls(r, "after a background task");
+}
+
+/// "... stays on the CRL for as long as that key publishes a CRL": every
+/// serial that was confirmed on its issuer's CRL must be on every later CRL
+/// of that key - also on the ones a CA holds in its stored object set
+/// between two synchronisations (e.g. the CRL of the old key during a key
+/// roll), until the object expires.
+fn stored_crls(r: &mut Runner, when: &str) {
+    if !r.ext.c03.ledger.values().any(|e| e.confirmed) {
+        return
+    }
+    let now = Time::now();
+    let cas: Vec<(usize, String)> = r.model.cas.values()
+        .map(|c| (c.inst, c.name.clone())).collect();
+    let mut problems = Vec::new();
+    for (inst, name) in cas {
+        if !r.world.inst(inst).is_up() {
+            continue
+        }
+        let classes = crate::hooks::with_faults_suspended(|| {
+            crate::objsets::read(r.world.inst(inst).rt(), &name)
+        });
+        for class in &classes {
+            for set in &class.sets {
+                let Ok(crl) = rpki::repository::crl::Crl::decode(
+                    set.crl.as_slice()
+                ) else { continue };
+                for ((issuer, serial), entry) in r.ext.c03.ledger.iter() {
+                    if !entry.confirmed || entry.current
+                        || entry.not_after <= now
+                        || issuer.to_string() != set.key_id
+                    {
+                        continue
+                    }
+                    r.ext.c03.crl_checks += 1;
+                    if !crl.contains(*serial) {
+                        problems.push(format!(
+                            "{when}: {} (serial {serial}) was on the CRL of \
+                             key {issuer} of CA {name} and has not expired, \
+                             but the {} CRL (number {}) the CA now holds \
+                             for that key no longer lists it",
+                            entry.uri, set.role, set.number
+                        ));
+                    }
+                }
+            }
+        }
+    }
+    if let Some(p) = problems.into_iter().next() {
+        r.violation("C03", "dropped_from_crl", p);
+    }
+}
 
 pub fn at_caught_up(r: &mut Runner, _repo_inst: usize, rpres: &RpResult) {
     let now = Time::now();
@@ -50,6 +108,7 @@ pub fn at_caught_up(r: &mut Runner, _repo_inst: usize, rpres: &RpResult) {
             current: true,
             first_step: step,
             ended_step: 0,
+            confirmed: false,
         });
         entry.current = true;
     }
@@ -66,12 +125,16 @@ pub fn at_caught_up(r: &mut Runner, _repo_inst: usize, rpres: &RpResult) {
     // Everything that is not current, has not expired, and whose issuing
     // key still publishes a CRL must be on that CRL.
     let mut problems = Vec::new();
+    let mut confirmed = Vec::new();
     for ((issuer, serial), entry) in r.ext.c03.ledger.iter() {
         if entry.current || entry.not_after <= now {
             continue
         }
         let Some(pp) = rpres.pub_point(issuer) else { continue };
         r.ext.c03.crl_checks += 1;
+        if pp.crl.contains(*serial) {
+            confirmed.push((*issuer, *serial));
+        }
         if !pp.crl.contains(*serial) {
             problems.push(format!(
                 "{} (serial {serial}, issuer key {issuer}) stopped being \
@@ -79,6 +142,11 @@ pub fn at_caught_up(r: &mut Runner, _repo_inst: usize, rpres: &RpResult) {
                  (CRL number {})",
                 entry.uri, entry.ended_step, pp.crl_uri, pp.crl_number
             ));
+        }
+    }
+    for key in confirmed {
+        if let Some(entry) = r.ext.c03.ledger.get_mut(&key) {
+            entry.confirmed = true;
         }
     }
     // Objects that are still in the repository although revoked.
